@@ -407,21 +407,105 @@ Proof.
       lra.
 Qed.
 
-Lemma match_cond_sound d eqs c o m :
-  match_cond d eqs c o = Some m ->
+(* ------------------------------------------------------------------ structural rounding *)
+Lemma binop_eqb_eq a b : binop_eqb a b = true -> a = b.
+Proof. destruct a, b; simpl; intros H; try discriminate; reflexivity. Qed.
+
+Lemma eround_b_sound tol h : forall o, eround_b tol h o = true -> eround tol h o.
+Proof.
+  induction h as [p|v|op a IHa b IHb]; intros o H.
+  - cbn [eround_b] in H. rewrite orb_false_r in H. apply orb_true_iff in H. destruct H as [H|H].
+    + destruct o as [q| |]; try discriminate. apply Qle_bool_iff in H. constructor. exact H.
+    + apply andb_true_iff in H. destruct H as [Hv Ho]. destruct o as [q| |]; try discriminate.
+      apply Qeq_bool_iff in Ho. apply ER_zero; assumption.
+  - cbn [eround_b vanishing] in H. rewrite orb_false_r in H. cbn [andb] in H. rewrite orb_false_r in H.
+    destruct o as [|w|]; try discriminate. apply String.eqb_eq in H. subst w. constructor.
+  - cbn [eround_b] in H. apply orb_true_iff in H. destruct H as [H|H]; [apply orb_true_iff in H; destruct H as [H|H]|].
+    + destruct o as [| |op' a' b']; try discriminate.
+      apply andb_true_iff in H. destruct H as [H Hb]. apply andb_true_iff in H. destruct H as [Hop Ha].
+      apply binop_eqb_eq in Hop. subst op'. constructor; auto.
+    + destruct op; try discriminate. apply orb_true_iff in H. destruct H as [H|H];
+        apply andb_true_iff in H; destruct H as [Hv Hr].
+      * apply ER_dropl; auto.
+      * apply ER_dropr; auto.
+    + apply andb_true_iff in H. destruct H as [Hv Ho]. destruct o as [q| |]; try discriminate.
+      apply Qeq_bool_iff in Ho. apply ER_zero; assumption.
+Qed.
+
+Lemma cround_b_sound tol h o : cround_b tol h o = true -> cround tol h o.
+Proof.
+  unfold cround_b, cround. intros H. apply andb_true_iff in H. destruct H as [H Hr].
+  apply andb_true_iff in H. destruct H as [Hop Hl]. apply cmp_eqb_eq in Hop.
+  repeat split; auto using eround_b_sound.
+Qed.
+
+(* sanity of the relation: with tolerance zero a structural rounding has the same value *)
+Lemma vanishing_zero rho z : vanishing 0 z = true -> eval rho z == 0.
+Proof.
+  induction z as [c|v|op a IHa b IHb]; simpl; intros H; try discriminate.
+  - apply Qle_bool_iff in H. revert H. apply (Qabs_case c (fun y => y <= 0 -> c == 0)); intros; lra.
+  - destruct op; try discriminate.
+    + apply andb_true_iff in H. destruct H as [H1 H2]. simpl. rewrite (IHa H1), (IHb H2). ring.
+    + apply orb_true_iff in H. simpl. destruct H as [H|H]; [rewrite (IHa H)|rewrite (IHb H)]; ring.
+Qed.
+
+Lemma eround_zero_same rho h o : eround 0 h o -> eval rho h == eval rho o.
+Proof.
+  induction 1 as [p q H|v|op a b a' b' _ IHa _ IHb|z a o Hz _ IH|z a o Hz _ IH|z q Hz Hq]; simpl.
+  - apply (Qabs_case (p - q) (fun x => x <= 0 -> p == q)); intros; lra.
+  - reflexivity.
+  - apply bin_sem_comp; assumption.
+  - rewrite (vanishing_zero rho z Hz), IH. ring.
+  - rewrite (vanishing_zero rho z Hz), IH. ring.
+  - rewrite (vanishing_zero rho z Hz), Hq. reflexivity.
+Qed.
+
+(* ------------------------------------------------------------------ omission of implied conditions *)
+Lemma cmp_b_sound o x y : cmp_b o x y = true -> cmp_holds o x y.
+Proof.
+  destruct o; simpl; intros H.
+  - apply Qle_bool_iff. exact H.
+  - apply Qle_bool_iff. exact H.
+  - apply negb_true_iff in H. destruct (Qlt_le_dec x y) as [L|L]; [exact L|]. apply Qle_bool_iff in L. congruence.
+  - apply negb_true_iff in H. destruct (Qlt_le_dec y x) as [L|L]; [exact L|]. apply Qle_bool_iff in L. congruence.
+  - apply Qeq_bool_iff. exact H.
+Qed.
+
+Lemma const_holds_sound c rho : const_holds c = true -> sat rho c.
+Proof.
+  unfold const_holds. destruct (pnorm (c_l c)) as [l|] eqn:El; [|discriminate].
+  destruct (pnorm (c_r c)) as [r|] eqn:Er; [|discriminate].
+  destruct (as_const l) as [x|] eqn:Ex; [|discriminate]. destruct (as_const r) as [y|] eqn:Ey; [|discriminate].
+  intros H. apply cmp_b_sound in H. unfold sat.
+  eapply cmp_holds_comp; [| |exact H].
+  - rewrite (pnorm_sound rho _ _ El). apply as_const_sound. exact Ex.
+  - rewrite (pnorm_sound rho _ _ Er). apply as_const_sound. exact Ey.
+Qed.
+
+Lemma implied_sound eqs c rho : implied eqs c = true -> sat_all rho eqs -> sat rho c.
+Proof.
+  unfold implied. intros H Hs. apply existsb_exists in H. destruct H as (sq & Hin & H).
+  destruct (apply_seq_sound rho sq c (subst_seqs_sound rho eqs sq Hin Hs)) as [A _].
+  apply A. apply const_holds_sound. exact H.
+Qed.
+
+(* ------------------------------------------------------------------ matching one condition *)
+Lemma match_cond_sound d eqs hs c o m :
+  match_cond d eqs hs c o = Some m ->
   rounded d m o /\
-  forall rho, sat_all rho eqs -> cdefined rho c -> cdefined rho o -> (sat rho c <-> msat rho m).
+  forall rho, sat_all rho eqs -> cdefined rho c -> mdefined rho m -> (sat rho c <-> msat rho m).
 Proof.
   unfold match_cond. intros H. apply first_some_sound in H. destruct H as (sq & Hin & H).
   destruct (match_poly d (apply_seq sq c) o) as [m'|] eqn:Ep.
   - injection H as <-. apply match_poly_sound in Ep. destruct Ep as [R E]. split; [exact R|].
     intros rho Hs Dc Do. rewrite E.
     destruct (apply_seq_sound rho sq c (subst_seqs_sound rho eqs sq Hin Hs)) as [A _]. symmetry. exact A.
-  - destruct (match_exact (apply_seq sq c) (apply_seq sq o)) eqn:Ee; [|discriminate].
-    injection H as <-. split; [reflexivity|].
-    intros rho Hs Dc Do. simpl.
+  - apply first_some_sound in H. destruct H as (h & _ & H).
+    destruct (cround_b (tol_of d) h o && match_exact (apply_seq sq c) (apply_seq sq h)) eqn:Ee; [|discriminate].
+    injection H as <-. apply andb_true_iff in Ee. destruct Ee as [Er Ee]. split; [apply cround_b_sound; exact Er|].
+    intros rho Hs Dc Dh. simpl in *.
     pose proof (subst_seqs_sound rho eqs sq Hin Hs) as V.
-    destruct (apply_seq_sound rho sq c V) as [A1 A2]. destruct (apply_seq_sound rho sq o V) as [B1 B2].
+    destruct (apply_seq_sound rho sq c V) as [A1 A2]. destruct (apply_seq_sound rho sq h V) as [B1 B2].
     rewrite <- A1, <- B1. apply match_exact_sound; auto.
 Qed.
 
@@ -442,13 +526,13 @@ Proof.
   destruct H2 as [->|[]]. exact H1.
 Qed.
 
-Lemma cover_by_sound d eqs out c m :
-  In m (cover d eqs out c) ->
+Lemma cover_by_sound d eqs hs out c m :
+  In m (cover d eqs hs out c) ->
   exists o, In o out /\ rounded d m o /\
-    forall rho, sat_all rho eqs -> cdefined rho c -> cdefined rho o -> (sat rho c <-> msat rho m).
+    forall rho, sat_all rho eqs -> cdefined rho c -> mdefined rho m -> (sat rho c <-> msat rho m).
 Proof.
   unfold cover. intros H. apply in_somes' in H. apply in_map_iff in H. destruct H as (o & E & Hin).
-  exists o. split; [exact Hin|]. apply match_cond_sound. exact E.
+  exists o. split; [exact Hin|]. eapply match_cond_sound. exact E.
 Qed.
 
 Lemma expr_eqb_eq a : forall b, expr_eqb a b = true -> a = b.
@@ -464,73 +548,91 @@ Qed.
 Lemma rounds_to_sound d m o : rounds_to d m o = true -> rounded d m o.
 Proof.
   destruct m as [c|op l r]; simpl; intros H.
-  - unfold cond_eqb in H. apply andb_true_iff in H. destruct H as [H H3]. apply andb_true_iff in H.
-    destruct H as [H1 H2]. apply cmp_eqb_eq in H1. apply expr_eqb_eq in H2. apply expr_eqb_eq in H3.
-    destruct c, o. simpl in *. congruence.
+  - apply cround_b_sound. exact H.
   - apply andb_true_iff in H. destruct H as [H1 H]. apply cmp_eqb_eq in H1. split; [exact H1|].
     destruct (pnorm (c_l o)) as [lo|]; [|discriminate]. destruct (pnorm (c_r o)) as [ro|]; [|discriminate].
     apply andb_true_iff in H. destruct H as [C1 C2]. exists lo, ro. repeat split; auto using close_b_sound.
 Qed.
 
 (* ------------------------------------------------------------------ the checker is sound *)
-Theorem check_pre_sound d conds out :
-  check_pre d conds out = true ->
+Theorem check_pre_sound d hs conds out :
+  check_pre d hs conds out = true ->
   exists mid : list mcond,
-    (forall rho, defined_all rho conds -> defined_all rho out ->
+    (forall rho, defined_all rho conds -> Forall (mdefined rho) mid ->
                  (sat_all rho conds <-> Forall (msat rho) mid)) /\
     (forall m, In m mid -> exists o, In o out /\ rounded d m o) /\
     (forall o, In o out -> exists m, In m mid /\ rounded d m o).
 Proof.
   unfold check_pre. set (eqs := filter is_eq conds).
-  set (f := fun c => cover d (if is_eq c then [] else eqs) out c).
+  set (use := fun c : cond => if is_eq c then [] else eqs).
+  set (f := fun c => cover d (use c) hs out c).
   intros H. apply andb_true_iff in H. destruct H as [H1 H2].
   rewrite forallb_forall in H1, H2.
   exists (flat_map f conds). split; [|split].
-  - intros rho Dc Do. unfold defined_all, sat_all in *. rewrite Forall_forall in Dc, Do.
+  - intros rho Dc Dm. unfold defined_all, sat_all in *. rewrite Forall_forall in Dc, Dm.
     split.
     + intros Hs. rewrite Forall_forall in Hs. apply Forall_forall. intros m Hm.
+      pose proof (Dm m Hm) as Dmm.
       apply in_flat_map in Hm. destruct Hm as (c & Hin & Hc).
       unfold f in Hc. apply cover_by_sound in Hc. destruct Hc as (o & Ho & _ & E).
       apply E; auto.
-      destruct (is_eq c); [constructor|]. unfold sat_all. apply Forall_forall. intros e He.
+      unfold use. destruct (is_eq c); [constructor|]. unfold sat_all. apply Forall_forall. intros e He.
       apply filter_In in He. apply Hs. tauto.
     + intros Hm. rewrite Forall_forall in Hm.
-      assert (Hone : forall c es, In c conds -> sat_all rho es -> f c = cover d es out c -> sat rho c).
-      { intros c es Hc Hes Ef. specialize (H1 c Hc). change (match f c with [] => trivial c | _ :: _ => true end = true) in H1.
+      assert (Hone : forall c, In c conds -> sat_all rho (use c) -> sat rho c).
+      { intros c Hc Hes. specialize (H1 c Hc).
+        change (match f c with [] => trivial c || implied (use c) c | _ :: _ => true end = true) in H1.
         destruct (f c) as [|m ms] eqn:Efc.
-        - apply trivial_sound; auto.
+        - apply orb_true_iff in H1. destruct H1 as [H1|H1].
+          + apply trivial_sound; auto.
+          + eapply implied_sound; eauto.
         - assert (Hin : In m (flat_map f conds)).
           { apply in_flat_map. exists c. split; [exact Hc|]. rewrite Efc. left. reflexivity. }
-          assert (Hc' : In m (cover d es out c)) by (rewrite <- Ef; left; reflexivity).
+          assert (Hc' : In m (cover d (use c) hs out c)) by (fold (f c); rewrite Efc; left; reflexivity).
           apply cover_by_sound in Hc'. destruct Hc' as (o & Ho & _ & E). apply E; auto. }
       assert (Heqs : sat_all rho eqs).
       { unfold sat_all. apply Forall_forall. intros e He. apply filter_In in He. destruct He as [He1 He2].
-        apply (Hone e [] He1); [constructor|]. unfold f. rewrite He2. reflexivity. }
-      apply Forall_forall. intros c Hc.
-      destruct (is_eq c) eqn:Ec.
-      * apply (Hone c [] Hc); [constructor|]. unfold f. rewrite Ec. reflexivity.
-      * apply (Hone c eqs Hc Heqs). unfold f. rewrite Ec. reflexivity.
+        apply (Hone e He1). unfold use. rewrite He2. constructor. }
+      apply Forall_forall. intros c Hc. apply (Hone c Hc).
+      unfold use. destruct (is_eq c); [constructor|exact Heqs].
   - intros m Hm. apply in_flat_map in Hm. destruct Hm as (c & _ & Hc).
     unfold f in Hc. apply cover_by_sound in Hc. destruct Hc as (o & Ho & R & _). eauto.
   - intros o Ho. specialize (H2 o Ho). apply existsb_exists in H2. destruct H2 as (m & Hm & R).
     exists m. split; [exact Hm|]. apply rounds_to_sound. exact R.
 Qed.
 
-Theorem check_under_sound d assumptions c o m :
-  check_under d assumptions c o = Some m ->
+Theorem check_under_sound d assumptions hs c o m :
+  check_under d assumptions hs c o = Some m ->
   rounded d m o /\
-  forall rho, sat_all rho assumptions -> cdefined rho c -> cdefined rho o -> (sat rho c <-> msat rho m).
+  forall rho, sat_all rho assumptions -> cdefined rho c -> mdefined rho m -> (sat rho c <-> msat rho m).
 Proof.
   unfold check_under. intros H. apply match_cond_sound in H. destruct H as [R E]. split; [exact R|].
   intros rho Hs. apply E. unfold sat_all in *. rewrite Forall_forall in *. intros e He.
   apply filter_In in He. apply Hs. tauto.
 Qed.
 
-Theorem check_expr_sound d e o :
-  check_expr d e o = true ->
+(* an inequality that simplify_inequality omits under its assumptions *)
+Theorem implied_under_sound assumptions c :
+  implied (filter is_eq assumptions) c = true -> forall rho, sat_all rho assumptions -> sat rho c.
+Proof.
+  intros H rho Hs. eapply implied_sound; [exact H|].
+  unfold sat_all in *. rewrite Forall_forall in *. intros e He. apply filter_In in He. apply Hs. tauto.
+Qed.
+
+Lemma equiv_b_sound e h rho : equiv_b e h = true -> defined rho e -> defined rho h -> eval rho h == eval rho e.
+Proof.
+  unfold equiv_b. intros H De Dh.
+  pose proof (rnorm_sound rho _ De) as [He1 He2]. pose proof (rnorm_sound rho _ Dh) as [Ho1 Ho2].
+  destruct (rnorm e) as [ne de]. destruct (rnorm h) as [no dn]. simpl in *.
+  apply (is_zero_sound rho) in H. rewrite peval_pclean, peval_psub, !peval_pmul in H.
+  rewrite He2, Ho2. field_simplify_eq; [|tauto]. lra.
+Qed.
+
+Theorem check_expr_sound d hs e o :
+  check_expr d hs e o = true ->
   (exists p q, (forall rho, eval rho e == peval rho p) /\ (forall rho, eval rho o == peval rho q) /\
                poly_close (tol_of d) p q)
-  \/ (forall rho, defined rho e -> defined rho o -> eval rho o == eval rho e).
+  \/ (exists h, eround (tol_of d) h o /\ forall rho, defined rho e -> defined rho h -> eval rho h == eval rho e).
 Proof.
   unfold check_expr. intros H. apply orb_true_iff in H. destruct H as [H|H].
   - left. destruct (pnorm e) as [p|] eqn:E1; [|discriminate]. destruct (pnorm o) as [q|] eqn:E2; [|discriminate].
@@ -538,18 +640,15 @@ Proof.
     + intros rho. apply pnorm_sound. exact E1.
     + intros rho. apply pnorm_sound. exact E2.
     + apply close_b_sound. exact H.
-  - right. intros rho De Do.
-    pose proof (rnorm_sound rho _ De) as [He1 He2]. pose proof (rnorm_sound rho _ Do) as [Ho1 Ho2].
-    destruct (rnorm e) as [ne de]. destruct (rnorm o) as [no dn]. simpl in *.
-    apply (is_zero_sound rho) in H. rewrite peval_pclean, peval_psub, !peval_pmul in H.
-    rewrite He2, Ho2. field_simplify_eq; [|tauto]. lra.
+  - right. apply existsb_exists in H. destruct H as (h & _ & H). apply andb_true_iff in H. destruct H as [Hr He].
+    exists h. split; [apply eround_b_sound; exact Hr|]. intros rho. apply equiv_b_sound. exact He.
 Qed.
 
 (* the hypotheses are satisfiable by non-trivial values *)
 Open Scope string_scope.
 Example check_pre_nontrivial :
   let x := EVar "( x ?a )" in let y := EVar "( y ?a )" in
-  check_pre 2
+  check_pre 2 []
     [ {| c_op := CEq; c_l := EBin OAdd x y; c_r := ENum 3 |};
       {| c_op := CLe; c_l := EBin OAdd (EBin OMul x (ENum (1234 # 1000))) y; c_r := ENum 10 |};
       {| c_op := CEq; c_l := x; c_r := x |} ]
@@ -559,6 +658,30 @@ Proof. vm_compute. reflexivity. Qed.
 
 Example check_pre_rejects_truncation :
   let x := EVar "( x ?a )" in
-  check_pre 4 [ {| c_op := CLe; c_l := EBin OMul (ENum (299999 # 100000)) x; c_r := ENum 4 |} ]
-              [ {| c_op := CLe; c_l := EBin OMul x (ENum 2); c_r := ENum 4 |} ] = false.
+  check_pre 4 [] [ {| c_op := CLe; c_l := EBin OMul (ENum (299999 # 100000)) x; c_r := ENum 4 |} ]
+                 [ {| c_op := CLe; c_l := EBin OMul x (ENum 2); c_r := ENum 4 |} ] = false.
 Proof. vm_compute. reflexivity. Qed.
+
+(* an inequality whose only fluent is fixed by a kept equality may be omitted when it then holds ... *)
+Example check_pre_omits_implied :
+  let w := EVar "( w )" in
+  check_pre 2 [] [ {| c_op := CEq; c_l := EBin OAdd w w; c_r := ENum 4 |}; {| c_op := CLe; c_l := w; c_r := ENum 25 |} ]
+                 [ {| c_op := CEq; c_l := w; c_r := ENum 2 |} ] = true.
+Proof. vm_compute. reflexivity. Qed.
+
+(* ... but not when it does not hold *)
+Example check_pre_keeps_contradicted :
+  let w := EVar "( w )" in
+  check_pre 2 [] [ {| c_op := CEq; c_l := EBin OAdd w w; c_r := ENum 4 |}; {| c_op := CLe; c_l := w; c_r := ENum 1 |} ]
+                 [ {| c_op := CEq; c_l := w; c_r := ENum 2 |} ] = false.
+Proof. vm_compute. reflexivity. Qed.
+
+(* a product of sums printed with 2 decimals is a structural rounding of the hint, which equals the input exactly;
+   without the hint (or with 3 instead of 2.995 rounded to 2 decimals) the expression is rejected *)
+Example check_expr_factored :
+  let x := EVar "( x ?a )" in let y := EVar "( y ?a )" in
+  let e := EBin OMul (EBin OSub x (ENum (2995 # 1000))) (EBin OAdd y (ENum (4 # 1000))) in
+  let o := EBin OMul (EBin OAdd x (ENum (-3))) y in
+  let h := EBin OMul (EBin OAdd x (ENum (-2995 # 1000))) (EBin OAdd y (ENum (4 # 1000))) in
+  check_expr 2 [h] e o = true /\ check_expr 2 [] e o = false /\ check_expr 3 [h] e o = false.
+Proof. vm_compute. repeat split; reflexivity. Qed.
